@@ -454,3 +454,54 @@ func H_C02_many() {
 		vCover("more-than-default-k")
 	}
 }
+
+func init() { vHarnesses["H_C02_flush_many"] = H_C02_flush_many }
+
+// six concrete vectors over three clusters, ANY subset of them removed, Flush, one more Add near any
+// centroid: the result lists before the flush, after it and after the later Add are exact against the
+// reference (sound for hnsw), and a removed node id is an error — compaction code that moves / shares
+// storage slots is exercised with every removal pattern, incl. runs of removed slots at the end
+func H_C02_flush_many() {
+	kind := vChoose("kind", 5)
+	vPQM, vPQNbits, vPQConcreteCB = 2, 1, true
+	u := vMakeIndexC(kind, L2Squared, 2, 3, false)
+	pts := [][]float32{{0.5, 1}, {4, 2.5}, {-3, -1}, {-0.5, 1.5}, {4.5, 3.5}, {-2.5, -2.5}}
+	for i, p := range pts {
+		vAddBoth(u.idx, u.m, vIDs[i], vCopy(p))
+	}
+	mask := vChoose("removed_mask", 64)
+	for i := range pts {
+		if mask&(1<<uint(i)) != 0 {
+			vRemoveBoth(u.idx, u.m, vIDs[i])
+		}
+	}
+	q := []float32{1, 1}
+	check := func(label string) {
+		res, err := u.idx.NewSearch().WithQuery(vCopy(q)).WithK(0).WithNProbes(0).Execute()
+		if kind == vKHNSW && u.m.liveCount() == 0 {
+			return
+		}
+		vAssert(err == nil, label+"-search-ok")
+		vTag("at=" + label)
+		E := u.m.eligible(q, 0, nil)
+		if kind == vKHNSW {
+			vCheckSound(res, E, 0)
+		} else {
+			vCheckExact(res, E, 0)
+		}
+	}
+	check("before-flush")
+	vFlushBoth(u.idx, u.m)
+	check("after-flush")
+	for i := range pts {
+		if mask&(1<<uint(i)) != 0 {
+			_, nerr := u.idx.NewSearch().WithNode(vIDs[i]).WithK(0).WithNProbes(0).Execute()
+			vAssert(nerr != nil, "removed-node-id-is-an-error")
+		}
+	}
+	np := [][]float32{{0.25, 0.5}, {3.5, 3}, {-3.5, -2}}[vChoose("new_at", 3)]
+	vAddBoth(u.idx, u.m, 42, vCopy(np))
+	check("after-later-add")
+	check("after-later-add-again")
+	vCover("ran")
+}
